@@ -242,6 +242,11 @@ def run(ctx):
         if exc:
             ctx.violation(dict(kind="sdeint_dyadic_bm", exc=exc), f"sdeint(bm=BrownianTree / dyadic interval, ts=[0,{t1}], dt={dt}): {exc}",
                           replay=dict(t1=t1, dt=dt))
+    # ---- traces harvested from the repository's own test-suite: cache bound at every call, no crash ----------
+    if not quick:
+        from harness import harvest_run
+        harvest_run.harvest(ctx, "brownian", ["brownian"])
+        harvest_run.harvest(ctx, "sdeint_quick", ["brownian"], selftest=False)
     ctx.exhaustive = False
 
 
